@@ -1,7 +1,7 @@
 (** C15 — property theorems only.  Each is closed by [exact] of a lemma in Proofs*.v and followed by
     [Print Assumptions]. *)
 From Coq Require Import Sorting.Permutation.
-From V Require Import Base.Util Gql.Ast C15.Model C15.Spec C15.Proofs1 C15.Proofs2 C15.Proofs3 C15.Proofs4 C15.Proofs5 C15.Proofs C15.Reify C15.CheckBridge C15.CheckSim C15.CheckSim2 C15.CheckRespects C15.CheckExamples C15.Corr C15.CorrProofs.
+From V Require Import Base.Util Gql.Ast C15.Model C15.Spec C15.Proofs1 C15.Proofs2 C15.Proofs3 C15.Proofs4 C15.Proofs5 C15.Proofs C15.Reify C15.CheckBridge C15.CheckSim C15.CheckSim2 C15.CheckRespects C15.CheckExamples C15.EmitSim C15.EmitExamples C15.Corr C15.CorrProofs.
 
 (** For every schema model M satisfying the guard, every key style and with or without the introspection types in
     the result: the JSON route accepts the standard introspection result of M, and the Schema it builds is
@@ -111,7 +111,7 @@ Theorem C15_root_decision_agrees : forall st meta M D,
               /\ V.C03.Model.check_operation fuel D fm op =
                    V.C03.Model.check_directives D (op_vars op) (V.C03.Model.op_location (op_type op)) (op_dirs op)
                    ++ match op_vars op with Some vs => V.C03.Model.check_variables_definition D vs | None => [] end
-                   ++ (if optype_eqb (op_type op) Subscription && Nat.ltb 1 (V.C03.Model.count_fields fuel fm [] (op_sel op))
+                   ++ (if optype_eqb (op_type op) Subscription && Nat.ltb 1 (length (V.C03.Model.collect_response_keys fuel fm [] (op_sel op) []))
                        then [V.C03.Model.err0 V.C03.Model.SubscriptionMustHaveExactlyOneRootField (op_pos op)] else [])
                    ++ V.C03.Model.check_selection_set fuel D fm (op_vars op) [] root (op_sel op)).
 Proof. exact root_decision_agrees. Qed.
@@ -170,6 +170,28 @@ Theorem C15_certified_check : forall st meta M D J out_sdl out_json docs,
       (V.C03.Model.check_operation_document D doc = [] <-> V.C03.Model.check_operation_document (doc_of_schema Sj) doc = []).
 Proof. exact certified_check. Qed.
 Print Assumptions C15_certified_check.
+
+(** emit_respects_equiv, type level, against builder-C10's model of the schema declaration printer
+    (V.C10.Model.type_member = what TypeDefinition::print_type computes before text is written).  Under the hypotheses of
+    C15_routes_agree, for every compared name whose definition is not an interface, in every namespace and for every
+    scalar configuration on which the two printing contexts agree (same identifier bag, same mapping of that name): the
+    declaration computed from type_system_to_ast of the JSON route's Schema — what `generate` prints on that route — and
+    from the SDL document have the same outcome, the same local alias and the same TSType up to key positions and JSDoc
+    text (descriptions, @deprecated). *)
+Theorem C15_emit_respects_equiv : forall st meta M Dsdl,
+  model_ok M = true -> doc_equiv Dsdl (sdl_doc M) -> parsed_positions Dsdl ->
+  exists Sj, json_route (introspect st meta M) = Ok Sj /\
+    let DA := type_system_to_ast Sj in
+    forall o tg,
+      bag_equiv_b (V.C10.Model.c_bag (V.C10.Model.make_ctx o DA tg)) (V.C10.Model.c_bag (V.C10.Model.make_ctx o Dsdl tg)) = true ->
+      forall n tA tD, vis_of M n = true ->
+        Ts.TsDen.assoc n (V.C10.Model.c_scalars (V.C10.Model.make_ctx o DA tg)) = Ts.TsDen.assoc n (V.C10.Model.c_scalars (V.C10.Model.make_ctx o Dsdl tg)) ->
+        V.C10.Model.get_type DA n = Some tA -> V.C10.Model.get_type Dsdl n = Some tD ->
+        emit_closed (vis_of M) tA = true ->
+        (forall d p nm i ds fs k, tA <> TDInterface d p nm i ds fs k) ->
+        res_shape (V.C10.Model.type_member (V.C10.Model.make_ctx o DA tg) tA) = res_shape (V.C10.Model.type_member (V.C10.Model.make_ctx o Dsdl tg) tD).
+Proof. exact emit_respects_equiv. Qed.
+Print Assumptions C15_emit_respects_equiv.
 
 (** The boolean comparison the correspondence run evaluates on the implementation's two Schema values
     (Corr.holds on a CRoutes case) implies the equivalence stated above. *)
